@@ -16,7 +16,7 @@ T1_MODULES = {
     "C07": ["vt.contracts.utils_maxcounter", "vt.contracts.syntactic", "vt.contracts.slicer_costs"],
     "C05": ["vt.contracts.path_convert", "vt.contracts.processor_legs"],
     "C09": ["vt.contracts.con_cost", "vt.contracts.processor_legs"],
-    "C10": ["vt.contracts.path_convert"],
+    "C10": ["vt.contracts.path_convert", "vt.contracts.traversal"],
     "C14": ["vt.contracts.reusable_policy", "vt.contracts.diskdict_effects"],
     "C18": ["vt.contracts.legs_rules", "vt.contracts.processor_legs", "vt.contracts.core_legs"],
     "C19": ["vt.contracts.exponent"],
